@@ -113,6 +113,7 @@ func vBuilderMC[S any](c *vCtx, sys *vBuilderSys[S], depth int) {
 func vBuilderJudge[S any](c *vCtx, sys *vBuilderSys[S], seq []int) {
 	c.Transitions++
 	c.Traces++
+	vResetGlobals()
 	newSearch := sys.Setup()
 	a := sys.Base(newSearch())
 	var ra []vIDScore
